@@ -245,9 +245,9 @@ func Spec() *mon.Spec {
 			"AddDir factors are >= 0; the empty path is not used (bbolt rejects empty keys; undocumented)",
 		},
 		Phases: []mon.Phase{
-			{Name: "history", Quick: 1600, Thorough: 30000, Run: func(c *mon.Case) { runHistory(c, false) }},
-			{Name: "dirs", Quick: 300, Thorough: 5000, Run: func(c *mon.Case) { runHistory(c, true) }},
-			{Name: "bulk", Quick: 64, Thorough: 1000, Run: runBulk},
+			{Name: "history", Quick: 1600, Thorough: 10000, Run: func(c *mon.Case) { runHistory(c, false) }},
+			{Name: "dirs", Quick: 300, Thorough: 2000, Run: func(c *mon.Case) { runHistory(c, true) }},
+			{Name: "bulk", Quick: 64, Thorough: 400, Run: runBulk},
 		},
 		Floors: map[string]int{
 			"distinct_nontrivial": 400, "deletes_of_newest_entry": 100, "deletes_present": 3000, "deletes_absent": 1000,
